@@ -211,6 +211,7 @@ func (ex *Exec) assign(st *State, lhs ast.Expr, v *Val) {
 			ex.guardCheck(st, loc, lhs, true)
 			ex.ownsCheck(st, loc, lhs)
 			ex.finalCheck(st, loc, lhs)
+			ex.nilResetCheck(st, loc, lhs, v)
 		} else {
 			ex.recordAssign(loc.Obj)
 		}
@@ -1426,4 +1427,21 @@ func (ex *Exec) insertOnlyCheck(st *State, l *ast.IndexExpr, m, k *Val) {
 	fresh := "(> " + loc.Ref + " " + ex.eng.alloc0() + ")"
 	ex.insertOnlyN++
 	ex.obligNamed(st, "held", fmt.Sprintf("insert-only(%s)#%d", loc.Path[0], ex.insertOnlyN), l.Pos(), or(not(present), fresh), "a store into "+loc.TKey+"."+loc.Path[0]+" must not replace an entry that is present (entries of this table are only ever added)")
+}
+
+
+// nilResetCheck: `nilreset pkg.Type.field` declares a slice field whose contents are handed to another goroutine
+// when it is emptied: the emptied field must then be nil, not a zero-length reslice of the array that was handed
+// over (a later append would write into the array the other goroutine is still reading).
+func (ex *Exec) nilResetCheck(st *State, loc *Loc, at ast.Expr, v *Val) {
+	if len(ex.eng.cs.NilReset) == 0 || !loc.Heap || len(loc.Path) != 1 || ex.specDepth > 0 || v == nil || v.Sh == nil || v.Sh.Kind != "slice" {
+		return
+	}
+	if !ex.eng.cs.NilReset[loc.TKey+"."+loc.Path[0]] {
+		return
+	}
+	nilv := &Val{Sh: leafShape(types.Typ[types.UntypedNil], "Int"), T: types.Typ[types.UntypedNil], S: "0"}
+	isnil := ex.eqVal(v, nilv)
+	ex.nilResetN++
+	ex.obligNamed(st, "owns", fmt.Sprintf("nil-reset(%s)#%d", loc.Path[0], ex.nilResetN), at.Pos(), implies(eq(v.kid("len").S, "0"), isnil), "when "+loc.TKey+"."+loc.Path[0]+" is emptied it must become nil: its old array has been handed to another goroutine")
 }
